@@ -7,6 +7,11 @@
 // The programs are rendered by lib/lifteng.py so that every leaf statement and
 // every condition contains exactly one number literal, its id
 // (`x = x + 7;`, `return x + 8;`, `var d9 = 10`, `x == 11`).
+// C13 additionally renders compound assignments on targets `c<id>` / `q<id>[..]`
+// (`c7 -= (7 - c7)`, `q8[x]++`): such a statement is identified by the digits of
+// its target, and mode `forms` prints each of them as lifted, in a canonical
+// prefix form `id=(= (V q8 (V x)) (Add (V q8 (V x)) (N 1)))` (target, opcode,
+// operands in order) for comparison with Spec.SurfaceSpec.expected_statement.
 use num_traits::ToPrimitive;
 use parser::parse_definition;
 use program_structure::cfg::{BasicBlock, Cfg, IntoCfg};
